@@ -82,6 +82,10 @@ TFinish ==
      ELSE LET e == Tr[l] IN
           IF e.ev # "Done" THEN Stop("run_return_expected_after_" \o s.exit \o "_but_" \o Got(e))
           ELSE IF e.s # s.exit THEN Stop("basic_exit_code_expected_" \o s.exit \o "_got_" \o e.s)
+          \* (named separately: the reported result is one whose violation exceeds the tolerance - no feasible item has its objective)
+          ELSE IF e.obj # s.best /\ ~cfg.tolnone /\ (\E i \in 1..Len(cfg.script) : cfg.script[i].obj = e.obj /\ ~cfg.script[i].feas)
+                  /\ ~(\E i \in 1..Len(cfg.script) : cfg.script[i].obj = e.obj /\ cfg.script[i].feas)
+               THEN Stop("basic_optimizer_reports_an_infeasible_result")
           ELSE IF e.obj # s.best THEN Stop("basic_optimizer_does_not_report_the_tracked_best")
           ELSE IF e.vars # 1 THEN Stop("basic_variables_are_not_those_of_the_reported_result")
           ELSE IF Routed(e) # "ok" THEN Stop("output_still_redirected_after_the_run")
